@@ -61,6 +61,11 @@ CHECKS = {
         note=NOTE + "around / balanced / collapse-brace and the rewriting strategies: bound checked by the monitor only (no theorem yet); replace-arguments-by-globals non-termination is a recorded finding.",
         technique="Lean 4 proof (termination measure / potential function) + differential execution + adversarial verdict search",
         ref="§4 C09"),
+    "C10": dict(
+        text="Theorems C10_exact_core / C10_exact_core_parts: for EVERY n, every testcase with pairwise distinct non-empty atoms (reducible or not, with prefix/suffix), every core of reducible atoms and every test that accepts exactly the deletions of the original still containing the core (CoreTest; shown satisfiable for every core by coreTest_singletons), minimize with min=1, repeat last/always, no time limit, any max >= 1 and any clock returns exactly the original with all reducible atoms outside the core deleted (order and flags kept) — from C03_one_minimal + C04_deletion_minimize + an 'accepted' invariant + sublist/filter lemmas. The test-count half, (2m+1)*ceil(log2 n)+5m+8, is stated as C10_test_bound_statement and NOT proved: it is decided by the monitor on the real Minimize.reduce for every (n, core) with n <= 8/10 and for empty/full/prefix/suffix/clustered/spread/random cores with n up to 1025/4096 on line, char and symbol atoms; the model is tied to the code on the same cases (final atoms + number of tests).",
+        note=NOTE + "Partial: the O(m log n) test bound is monitor + correspondence only (no theorem). The general C09 bound (n+1)(n+ceil(log2 n)+2)+1 is the proved upper bound on the number of tests.",
+        technique="Lean 4 proof (exact core from 1-minimality + deletion invariant) + differential execution on (n, core) grids with the bound as monitor",
+        ref="§4 C10"),
     "C14": dict(
         text="Theorems C14_pow2 (is_power_of_two(k) iff k = 2^j, all integers), C14_process_args (start-up refuses exactly non-powers of two for the effective min/max; --chunk-size=n == min=max=n, repeat=never), C14_blocks (every minimize candidate = best minus one contiguous non-empty block; chunk size a power of two, <= min(max, lp2 n), non-increasing; block = chunk size unless it is the entire remainder), C14_deadline_minimize (no proposal once the clock passed start+limit). Resweep rule, min clause and the time limit of around/balanced(+move): monitor on the real code.",
         note=NOTE + "min > max is a recorded finding; --repeat-first-round counts as 'the first sweep removed something' (documented option). time.time() is replaced by a scripted clock.",
